@@ -69,20 +69,48 @@ class Check(PropertyCheck):
 
     def rule(self):
         return ("random request sequences against one server process: GET, POST of diagrams (empty, up to 20 kB, hostile "
-                "markup), invalid UTF-8 bodies, oversized bodies (413), other methods/paths (405/404), malformed requests; "
+                "markup, bodies related to earlier ones: repeated, same length with a different tail/head, same prefix "
+                "but not UTF-8, a prefix), invalid UTF-8 bodies, oversized bodies (413), other methods/paths (405/404), malformed requests; "
                 "sequential and from 16 concurrent clients; liveness probe after every hostile request; non-trivial = POST "
                 "of a non-empty diagram answered 200, distinct by body")
 
     def gen_requests(self, n):
         r = self.rng
         reqs = []
+        posted = []
         for _ in range(n):
-            k = r.below(12)
+            k = r.below(15)
+            if k >= 12 and posted:
+                # a body related to an earlier one: answers must not be confused by shared length / prefix / suffix
+                b0 = r.choice(posted[-8:])
+                if len(b0) < 200 or r.chance(1, 2):
+                    b0 = (b0 + b"\n") * (r.range(4100, 20000) // (len(b0) + 1) + 1)
+                    reqs.append(("POST", "/", b0, "utf8"))
+                    posted.append(b0)
+                v = r.below(5)
+                if v == 0:
+                    reqs.append(("POST", "/", b0, "utf8"))
+                elif v == 1:     # same length, last line differs
+                    reqs.append(("POST", "/", b0[:-3] + r.choice([b"+-+", b"*->", b"o-o", b"abc"]), "utf8"))
+                elif v == 2:     # same length, first bytes differ
+                    reqs.append(("POST", "/", r.choice([b"+-+", b"*->", b"abc"]) + b0[3:], "utf8"))
+                elif v == 3:     # same length and prefix, not UTF-8
+                    reqs.append(("POST", "/", b0[:-2] + b"\xff\xfe", "bad"))
+                else:            # a prefix of it
+                    reqs.append(("POST", "/", b0[: len(b0) // 2], "utf8"))
+                if reqs[-1][3] == "utf8":
+                    try:
+                        reqs[-1][2].decode("utf-8")
+                    except UnicodeDecodeError:
+                        reqs.pop()
+                continue
+            k = k % 12
             if k < 5:
                 t = gen.random_diagram(r, 20, 6)
                 if r.chance(1, 6):
                     t = t * r.range(2, 40)
                 reqs.append(("POST", "/", t.encode("utf-8"), "utf8"))
+                posted.append(t.encode("utf-8"))
             elif k == 5:
                 reqs.append(("POST", "/", b"", "utf8"))
             elif k == 6:
